@@ -208,6 +208,9 @@ func CoqEval(workdir, name, imports, listType, fn string, cases []string, par in
 	if per < minPerShard {
 		per = minPerShard
 	}
+	if per > 1500 { // large list literals cost coqc super-linear time and memory: more, smaller shards
+		per = 1500
+	}
 	type shard struct {
 		lo, hi int
 		out    []json.RawMessage
